@@ -21,6 +21,8 @@ import vlib
 PROP = "C01"
 QUICK = ["pair_v311_auto", "pair_v311_manual", "pair_v311_chunks", "pair_v50_auto", "pair_v50_manual", "pair_v50_ka", "pair_v50_rm3"]
 THOROUGH = QUICK + ["pair_v50_alias"]
+LIVE_QUICK = ["pair_live_v311", "pair_live_v50_ka"]
+LIVE_THOROUGH = ["pair_live_v311", "pair_live_v311_manual", "pair_live_v50", "pair_live_v50_ka"]
 EP_PROPS = ["C05", "C06", "C07", "C08", "C12", "C13", "C14", "C15", "C19"]
 
 
@@ -101,6 +103,16 @@ def main(tier, replay=None):
     per_slice, edge_files = {}, []
     res = vlib.tlc_many("MC_Pair", ["MC_%s.cfg" % n for n in names], wd, parallel=2 if thorough else 4,
                         workers=8 if thorough else 4, xmx="24g" if thorough else "8g", timeout=3000 if thorough else 600)
+    # termination ("no endless response loop"): TLC checks <>[]Quiet under weak fairness of delivery / duties / reconnection
+    live = LIVE_THOROUGH if thorough else LIVE_QUICK
+    lres = vlib.tlc_many("MC_Pair", ["MC_%s.cfg" % n for n in live], wd, parallel=4, workers=4, xmx="8g", timeout=1800)
+    live_states = 0
+    for n in live:
+        lr = lres["MC_%s.cfg" % n]
+        if not lr["completed"] or lr["errors"]:
+            raise vlib.ToolError("pair liveness slice %s: the specification does not satisfy Terminates: %s" % (n, lr["errors"][:2]))
+        live_states += lr["distinct"]
+        os.remove(lr["out"])
     extracted = {}
     for name in names:
         mc = res["MC_%s.cfg" % name]
@@ -181,6 +193,7 @@ def main(tier, replay=None):
                  "interleavings of deliveries, duties and losses); each explored transition is replayed on two real objects exchanging real bytes "
                  "(at most %d per run, sampled by seed) plus %s seeded random workloads. distinct_nontrivial = trie nodes that are quiescent points "
                  "(where the delivery / release / vacancy clauses are evaluated) or transport losses." % (names, limit, drive_n)),
+        "liveness": {"property": "Terminates == <>[]Quiet under FairSpec (WF on Deliver, Duty, PendSend, Lose2, ClientConnect)", "configurations": live, "states": live_states},
         "slices": per_slice, "trie_nodes": trie_n, "real_calls": hs.get("calls", 0), "harness_ops": hs.get("ops", {}),
         "quiescent_points": quiet_n, "transport_losses": lossy_n, "library_panics_observed": hs.get("panics", 0),
         "violating_nodes": len([1 for _, cl in viols if any(c.startswith(PROP) for c in cl)]), "known_finding_signatures": nk,
@@ -189,6 +202,6 @@ def main(tier, replay=None):
     }, [
         "sessions are persistent and the negotiated limits are the same across resumes (the property's quantifier)",
         "the application answers every duty (CONNACK, SUBACK, PINGRESP, manual PUBACK/PUBREC/PUBREL/PUBCOMP); the PUBREL duty survives a loss",
-        "termination is checked as: the random driver's step budget (40x the workload) is never exhausted and the model's state graph is finite",
+        "termination: TLC proves <>[]Quiet on the model under weak fairness (pair_live configurations); on the implementation every replayed schedule and every random workload is run to quiescence within a step budget that is never exhausted",
     ], time.time() - t0, nv)
     return code
